@@ -102,6 +102,7 @@ func runC05(w *W) {
 	}
 	nRelayouts := w.pickN(3, 12)
 	strat := stratifiedCorpus(stmts, 3, 4000) // every statement kind of the corpus, first
+	strat = append(strat, shortStatementShapes(stmts, 8)...) // … and every distinct shape among the short (phrase-parsed) statements
 	total := w.pickN(9000, 2*len(pool)) + len(strat)
 	for k := 0; k < total; k++ {
 		idx, mine := w.Case()
